@@ -211,3 +211,58 @@ def mutate(b, r):
     else:
         b += bytes(r.below(256) for _ in range(1 + r.below(8)))
     return bytes(b)
+
+
+# ---- structured mutations --------------------------------------------------------------------------
+DICT = ["#sys", "#exec", "#anon", "#main", "#sysx", "#exec1::a", "#sys::a", "a", "a::", "::a", "a::b", "a::b::c", "1a", "a-b",
+        "\u00e9", "A" * 255, "a" * 256, "_a", "a_", "main", "a" * 1023, "a" * 1024]
+
+
+def string_sites(b):
+    """(offset, width of the length field, length) of length-prefixed printable runs in b"""
+    out = []
+    for i in range(len(b) - 1):
+        n = b[i]
+        if 1 <= n <= 64 and i + 1 + n <= len(b) and all(32 <= c < 127 for c in b[i + 1:i + 1 + n]):
+            out.append((i, 1, n))
+        if i + 2 <= len(b):
+            n = b[i] | (b[i + 1] << 8)
+            if 1 <= n <= 64 and i + 2 + n <= len(b) and all(32 <= c < 127 for c in b[i + 2:i + 2 + n]):
+                out.append((i, 2, n))
+    return out
+
+
+def mutate_string(b, r):
+    """Replace one length-prefixed string by a dictionary word, keeping the length field right."""
+    sites = string_sites(b)
+    if not sites:
+        return mutate(b, r)
+    i, w, n = r.choice(sites)
+    word = r.choice(DICT).encode()
+    if w == 1 and len(word) > 255:
+        word = word[:255]
+    return bytes(b[:i]) + len(word).to_bytes(w, "little") + word + bytes(b[i + w + n:])
+
+
+def boundary_encodings():
+    """Valid encodings in which a length field takes its largest value: (kind, bytes)."""
+    out = []
+    add = bytes([8])
+    big = add * 65535
+    body = b"\xff\xff" + big
+    out.append(("prog", b"\x00" + b"\x00\x00" + body))                                     # program body
+    out.append(("prog", b"\x00" + b"\x01\x00" + b"\x01a" + b"\x00\x00" + b"\x00" + b"\x00\x00" + body + b"\x01\x00" + add))   # procedure body
+    out.append(("prog", b"\x00\x00\x00\x01\x00" + b"\xfd" + body + b"\x00\x00"))          # if branch
+    out.append(("prog", b"\x00\x00\x00\x01\x00" + b"\xfd" + b"\x01\x00" + add + body))      # else branch
+    out.append(("prog", b"\x00\x00\x00\x01\x00" + b"\xff" + body))                          # while body
+    out.append(("prog", b"\x00\x00\x00\x01\x00" + b"\xfe\xff\xff\xff\xff" + body))          # repeat body, max count
+    out.append(("mod", b"\x00" + b"\xff\xff" + b"d" * 65535 + b"\x00\x00" + b"\x01\x00" + b"\x01a\x00\x00\x01\x00\x00" + b"\x01\x00" + add))  # module docs
+    out.append(("mod", b"\x00\x00\x00\x00\x00\x01\x00" + b"\xff" + b"a" * 255 + b"\x00\x00\x01\x00\x00\x01\x00" + add))   # procedure name
+    out.append(("mod", b"\x00\x00\x00\x00\x00\x01\x00" + b"\x01a" + b"\xff\xff" + b"d" * 65535 + b"\x01\x00\x00\x01\x00" + add))  # procedure docs
+    out.append(("mod", b"\x00\x00\x00\x00\x00\x01\x00" + b"\x01a\x00\x00\x01" + b"\xff\xff" + b"\x01\x00" + add))            # num_locals
+    out.append(("kern", b"\xff\xff" + (b"\x01" + b"\x00" * 7) * 4 * 65535))                # kernel with 65535 procedures
+    out.append(("kern", b"\x00\x01" + (b"\x01" + b"\x00" * 7) * 4 * 256))                  # 256 procedures
+    out.append(("si", b"\x00\x00\x01\x00" + b"\x00" * 8 * 65536))
+    out.append(("so", b"\xff\xff\x00\x00" + (b"\x01" + b"\x00" * 7) * 65535 + (65535 - 15).to_bytes(4, "little") + (b"\x02" + b"\x00" * 7) * (65535 - 15)))
+    out.append(("so", b"\x00\x00\x01\x00" + (b"\x01" + b"\x00" * 7) * 65536 + (65536 - 15).to_bytes(4, "little") + (b"\x02" + b"\x00" * 7) * (65536 - 15)))
+    return out
